@@ -20,6 +20,7 @@ CLS = {
     "Kenamond3": "exactpack.solvers.kenamond.kenamond3.Kenamond3", "DSDcyl": "exactpack.solvers.dsd.cylexpansion.CylindricalExpansion",
     "Blake": "exactpack.solvers.blake.blake.Blake", "Rod1D": "exactpack.solvers.heat.rod1d.Rod1D",
     "Hutchens1": "exactpack.solvers.heat.hutchens1.Hutchens1", "RodNH": "exactpack.solvers.heat.rod1d.Rod1D",
+    "Guderley": "exactpack.solvers.guderley.guderley.Guderley",
     "RiemannIG": "exactpack.solvers.riemann.ep_riemann.IGEOS_Solver", "RiemannGen": "exactpack.solvers.riemann.ep_riemann.GenEOS_Solver",
 }
 for _n in [1, 2, 3, 4, 5, 6, 7, 8, 9, 10, 11, 12, 13, 14, 16, 17, 18, 19, 20, 21]:
@@ -128,6 +129,8 @@ def request(fam, kw, t, n=5):
         return np.stack([r * np.cos(th), r * np.sin(th)], axis=1)
     if fam == "Blake":
         return lin(1.0, 6.0, n) * kw["cavity_radius"]
+    if fam == "Guderley":
+        return lin(0.08, 1.9, 2 * n + 1)
     if fam in ("Rod1D", "RodNH"):
         return lin(0.08, 0.93, n) * kw["L"]
     if fam == "Hutchens1":
